@@ -232,6 +232,17 @@ func runC02(c *Ctx) {
 	c.reverseClientFresh("R02.12")
 	c.rule("R02.13", "every hand-over of a request to the connection loop is a select alternative to the client's exit signal as it is at that moment (a call made around close returns)")
 	c.enqueueRule("R02.13")
+	c.rule("R02.14", "the frame queue the executor reads from is made once, when the connection object is set up: replacing it later (on reconnect) leaves the executor parked on the old queue and no response is dispatched any more")
+	if c.need("R02.14", "F_queue", r.FQueue != nil) {
+		n := 0
+		for _, u := range usesOfKind(p.uses(r.FQueue), "store") {
+			n++
+			c.check(c.isConstruction(u), "R02.14", fmt.Sprintf("%s: store of the frame queue", fname(u.Fn)), c.ipos(u.At), "construction", "the frame queue is replaced while the connection is in use (e.g. a fresh queue after a reconnect): the single executor goroutine keeps waiting on the old channel, so responses read from the new connection are queued but never dispatched and every call hangs")
+		}
+		if n == 0 {
+			c.und("R02.14", "frame queue", "-", "never made")
+		}
+	}
 	c.rule("R02.8", "the argument list of the reflective handler call is allocated per invocation (never memory shared between calls)")
 	c.freshArgList("R02.8")
 }
